@@ -33,8 +33,9 @@ PROPERTY = {
             "has at least one edge",
     "trusted_base": ["CPython executes the real methods; the definitional specs are written independently in props/C27.py"],
     "assumptions": ["scope: <= 4 nodes exhaustive (5 nodes without self-loops in thorough), random larger graphs in thorough",
-                    "find_path / find_path_from_src are specified for cycles_count=0 (simple paths); for cycles_count=1 only "
-                    "soundness of each path, the repetition bound and inclusion of all simple paths are required",
+                    "find_path / find_path_from_src: cycles_count=0 gives the simple paths; for cycles_count=1 (and 2 up to 3 nodes) "
+                    "the walks on which the end point the search stops at occurs once and every other block at most cycles_count+1 "
+                    "times",
                     "generators are compared as sets plus absence of duplicates (yield order is unspecified except BFS levels)"],
 }
 
@@ -171,6 +172,31 @@ def spec_simple_paths(g, src, dst):
     return out
 
 
+def spec_bounded_walks(g, src, dst, cycles_count, from_src=False):
+    """find_path(src, dst, cycles_count): every walk from src to dst on which the end the search stops at (src for find_path,
+    which walks backwards from dst; dst for find_path_from_src) occurs once and every other node at most cycles_count + 1
+    times ("maximum number of times a basic block can be processed")"""
+    out = set()
+    stop, start = (dst, src) if from_src else (src, dst)
+    nxt = g.succ if from_src else g.pred
+    if src == dst:
+        return {(src,)}
+
+    def rec(path, count):
+        v = path[-1]
+        for w in nxt[v]:
+            if w == stop:
+                out.add(tuple(path + [w]) if from_src else tuple(reversed(path + [w])))
+                continue
+            if count.get(w, 0) > cycles_count:
+                continue
+            c2 = dict(count)
+            c2[w] = c2.get(w, 0) + 1
+            rec(path + [w], c2)
+    rec([start], {start: 1})
+    return out
+
+
 def dist_from(g, src, rev=False):
     nxt = g.pred if rev else g.succ
     d = {src: 0}
@@ -277,15 +303,14 @@ def check_graph(n, edges, heads=None):
                     return "%s(%d, %d) lists a path twice: %r" % (fname, src, dst, got)
                 if set(got) != sp:
                     return "%s(%d, %d) = %r, the simple paths are %r" % (fname, src, dst, sorted(got), sorted(sp))
-                got1 = [tuple(p) for p in getattr(dg, fname)(src, dst, cycles_count=1)]
-                for p in got1:
-                    ok = p and p[0] == src and p[-1] == dst and all((x, y) in g.edges for x, y in zip(p, p[1:])) and \
-                        all(p.count(x) <= 2 for x in p)
-                    if not ok:
-                        return "%s(%d, %d, cycles_count=1) lists %r: not a path of the graph / a node more than twice" % (
-                            fname, src, dst, p)
-                if not sp <= set(got1):
-                    return "%s(%d, %d, cycles_count=1) misses the simple path(s) %r" % (fname, src, dst, sorted(sp - set(got1)))
+                for cc in (1, 2) if n <= 3 else (1,):
+                    got1 = [tuple(p) for p in getattr(dg, fname)(src, dst, cycles_count=cc)]
+                    want1 = spec_bounded_walks(g, src, dst, cc, from_src=(fname == "find_path_from_src"))
+                    if set(got1) != want1:
+                        return "%s(%d, %d, cycles_count=%d) = %r, the walks visiting a block at most %d times are %r" % (
+                            fname, src, dst, cc, sorted(got1)[:6], cc + 1, sorted(want1)[:6])
+                    if len(got1) != len(set(got1)) and nodup(g.edges):
+                        return "%s(%d, %d, cycles_count=%d) lists a path twice" % (fname, src, dst, cc)
         if not frame():
             return "an analysis modified the graph (head %d)" % head
     return None
